@@ -25,7 +25,7 @@ Your task: make ONE small, realistic source change to the non-test Go code in {w
   1. the project still compiles and the EXISTING test suite still passes exactly as before (two tests already fail before your change and may keep failing: internal/martian TestIntegrationConnect(/reserr) and TestParseFilePath/insufficient_permissions);
   2. the property above is violated, but only when something specific happens - a particular interleaving, a fault or crash at a particular point, a multi-step sequence of operations, an unusual (yet legal) input, a specific configuration - NOT something ordinary use or a basic smoke test would expose at once;
   3. you can demonstrate the violation with a NEW Go test (or a small program) that FAILS with your change and PASSES on the original code.
-Do not edit or delete existing tests. Do not change go.mod. Keep the change small (ideally < 15 changed lines, one or two sites).{' Pick a different part of the property / a different mechanism than the most obvious one: be creative, aim for a subtle break (e.g. concurrency, an error/cleanup path, a boundary size, a rarely used configuration).' if variant=='b' else ''}{' Before choosing, list for yourself the distinct clauses of the statement and the dimensions of the quantifier, and read the anchored code for each; then break the clause / dimension that an ordinary end-to-end test is LEAST likely to exercise (a secondary clause, a rarely combined pair of options, a second code path that implements the same rule for another request kind or transport, an error or cleanup path, a boundary value). Avoid the first idea that comes to mind.' if variant=='c' else ''}{' Aim for a break that depends on STATE or HISTORY rather than on a single input: something that builds up over many requests or connections in one process (a cache, pool, counter, reused buffer, per-process map, a value remembered from an earlier message), the second or third exchange on a connection, two features interacting (for example a rarely combined pair of options, or the same rule implemented separately for another request kind, transport or protocol version), or an exact boundary value. A single ordinary request right after start-up must still behave correctly.' if variant=='d' else ''}{' Aim for a protocol corner case or an error / cleanup path rather than the main path: for example HEAD, 204, 304 or 1xx responses, HTTP/1.0 peers, Expect: 100-continue, trailers, Upgrade, half-closed or reset connections, a request cancelled mid-flight, an error on the second of two operations, an option given through another channel (environment or config file instead of a flag) or in an unusual but legal spelling, the IPv6 or upper-case variant of something usually written in IPv4 or lower case. The main path with ordinary input must still behave correctly.' if variant=='e' else ''}{' Make the change in the COMMAND-LINE / CONFIGURATION LAYER rather than in the core engine: the code under command/ and bind/ (flag definitions, parsing of flag values, environment variables and config files, defaults, and the wiring of parsed options into the proxy, transport, listener and API configuration, e.g. command/run/run.go), or a constructor that turns configuration into behaviour. The core packages must stay untouched, so that a test which builds the proxy through the Go API directly would not notice; the property must break for a user who runs the forwarder binary with the relevant documented options (given as flags, as FORWARDER_* environment variables or in a config file).' if variant not in ('a','b','c','d','e') else ''}
+Do not edit or delete existing tests. Do not change go.mod. Keep the change small (ideally < 15 changed lines, one or two sites).{' Pick a different part of the property / a different mechanism than the most obvious one: be creative, aim for a subtle break (e.g. concurrency, an error/cleanup path, a boundary size, a rarely used configuration).' if variant=='b' else ''}{' Before choosing, list for yourself the distinct clauses of the statement and the dimensions of the quantifier, and read the anchored code for each; then break the clause / dimension that an ordinary end-to-end test is LEAST likely to exercise (a secondary clause, a rarely combined pair of options, a second code path that implements the same rule for another request kind or transport, an error or cleanup path, a boundary value). Avoid the first idea that comes to mind.' if variant=='c' else ''}{' Aim for a break that depends on STATE or HISTORY rather than on a single input: something that builds up over many requests or connections in one process (a cache, pool, counter, reused buffer, per-process map, a value remembered from an earlier message), the second or third exchange on a connection, two features interacting (for example a rarely combined pair of options, or the same rule implemented separately for another request kind, transport or protocol version), or an exact boundary value. A single ordinary request right after start-up must still behave correctly.' if variant=='d' else ''}{' Aim for a protocol corner case or an error / cleanup path rather than the main path: for example HEAD, 204, 304 or 1xx responses, HTTP/1.0 peers, Expect: 100-continue, trailers, Upgrade, half-closed or reset connections, a request cancelled mid-flight, an error on the second of two operations, an option given through another channel (environment or config file instead of a flag) or in an unusual but legal spelling, the IPv6 or upper-case variant of something usually written in IPv4 or lower case. The main path with ordinary input must still behave correctly.' if variant=='e' else ''}{' Make the change in the COMMAND-LINE / CONFIGURATION LAYER rather than in the core engine: the code under command/ and bind/ (flag definitions, parsing of flag values, environment variables and config files, defaults, and the wiring of parsed options into the proxy, transport, listener and API configuration, e.g. command/run/run.go), or a constructor that turns configuration into behaviour. The core packages must stay untouched, so that a test which builds the proxy through the Go API directly would not notice; the property must break for a user who runs the forwarder binary with the relevant documented options (given as flags, as FORWARDER_* environment variables or in a config file).' if variant=='f' else ''}{' Make the change in the COMMAND-LINE / CONFIGURATION LAYER rather than in the core engine: the code under command/ and bind/ (flag definitions, parsing and validation of flag values, environment variables and config files, defaults, help/redaction helpers, and the wiring of parsed options into the proxy, transport, listener, dialer, logging and API configuration, e.g. command/run/run.go), or a constructor that turns configuration into behaviour. The core packages must stay untouched, so that a test which builds the proxy through the Go API directly would not notice; the property must break for a user who runs the forwarder binary with documented options (flags, FORWARDER_* environment variables or a config file). Prefer an option, an option VALUE FORM (a list with several entries, a repeated flag, an IPv6 or upper-case spelling, a zero or very large value, a value with special characters) or a COMBINATION OF TWO OR THREE OPTIONS that a simple end-to-end smoke test with one or two common options would not use; avoid the single most obvious option of the property.' if variant not in ('a','b','c','d','e','f') else ''}
 
 Environment (offline sandbox; every shell call needs this, env does not persist between calls):
   export GOROOT=/root/go/pkg/mod/golang.org/toolchain@v0.0.1-go1.23.12.linux-amd64 PATH=/root/go/pkg/mod/golang.org/toolchain@v0.0.1-go1.23.12.linux-amd64/bin:$PATH GOTOOLCHAIN=local GOFLAGS=-mod=mod GOPROXY=off
